@@ -111,6 +111,28 @@ Theorem C06_relay_rejected :
     fst (responder true B b (Pt a) sent ack) = None.
 Proof. exact relay_rejected. Qed.
 
+(* a peer that stops sending while the stream stays open: whatever prefix of an honest run it has
+   performed, the role waiting for the next frame does not succeed; it succeeds exactly when the run is
+   complete *)
+Theorem C06_stalling_peer_never_succeeds :
+  (forall chk A a B b sends, sends < 2 -> requester_vs_stalling chk A a B b sends = false) /\
+  (forall chk A a B b sends, sends < 3 -> responder_vs_stalling chk A a B b sends = None) /\
+  (forall A a B b, requester_vs_stalling true A a B b 2 = true /\ responder_vs_stalling true A a B b 3 = Some A).
+Proof. exact (conj stalling_responder_fails (conj stalling_requester_fails stalling_complete_run)). Qed.
+
+(* in the CURRENT source each role runs its five steps in protocol order, returns at once when one fails, and
+   has no other return without an error than the last one (generated facts) *)
+Theorem C06_roles_as_modelled :
+  ((requester_role_steps = [("hc.sendRequesterHello", true); ("hc.receiveResponderHello", true); ("hc.sendRequesterAuthenticate", true);
+                            ("hc.receiveResponderAccept", true); ("hc.sendRequesterAcknowledge", true)] /\
+    requester_role_returns = ["error"; "error"; "error"; "error"; "error"; "nil"]) /\
+   (responder_role_steps = [("hc.receiveRequesterHello", true); ("hc.sendResponderHello", true); ("hc.receiveRequesterAuthenticate", true);
+                            ("hc.sendResponderAccept", true); ("hc.receiveRequesterAcknowledge", true)] /\
+    responder_role_returns = ["nil, error"; "nil, error"; "nil, error"; "nil, error"; "nil, error"; "hc.peerAccountID, nil"]))%string.
+Proof. exact (conj requester_role_shape responder_role_shape). Qed.
+
+Print Assumptions C06_stalling_peer_never_succeeds.
+Print Assumptions C06_roles_as_modelled.
 Print Assumptions C06_relay_rejected.
 Print Assumptions C06_contact_request_steps_as_modelled.
 Print Assumptions C06_outgoing_only_to_proven_key.
